@@ -4,20 +4,43 @@ from common import Failure
 from props._geo import *  # noqa
 from refids import ref_res
 
-LEAN_MODULES = ['A5.Props.C07']
+LEAN_MODULES = ['A5.Props.C07', 'A5.Props.C07Planar']
 LEVEL = 'other'
-EXPLANATION = ('PROVED (Lean, exact arithmetic, unbounded depth): telescoping — if every one-level step moves the centre by at most kappa parent widths and widths halve per level, any descendant at any depth lies within 2*kappa widths of its ancestor\'s centre; with the measured kappa <= 0.72 that is 1.44 < 1.5. '
+EXPLANATION = ('PROVED (Lean, exact arithmetic on the exact values of the implementation\'s double constants, EVERY Hilbert level, every index, all six orientations, unbounded depth — `one_step`, `planar_coherence`): '
+               'the planar centroid of the pentagon of index s at level n+1 lies within 0.46 parent widths of the centroid of index s/4 at level n (the parent and child anchors differ only in the last step of the digit transducer, '
+               'so the displacement is one of 192 table entries, each bounded by the kernel), hence any descendant at any depth lies within 0.92 widths of its ancestor in the face plane. '
+               'PROVED (abstract): telescoping — if every one-level step moves the centre by at most kappa parent widths and widths halve per level, any descendant at any depth lies within 2*kappa widths of its ancestor\'s centre; with the measured kappa <= 0.72 that is 1.44 < 1.5. '
                'Face/segment nesting at resolutions -1, 0, 1 is exact in the id tree (C06). ' + TIE +
-               'ASSUMED (numeric, measured every run on the real code): H-step the one-level drift is <= 0.72 parent widths at every level (measured max 0.703); H-nest faces and their segments share corners exactly; point-to-ancestor distance <= 2.5 widths.')
+               'ASSUMED (numeric, measured every run on the real code): H-sphere the projection from the face plane to the sphere keeps the one-level drift <= 0.72 parent widths (planar 0.46 proved; spherical measured max 0.703, i.e. a distance distortion <= 1.53 at cell scale) and the steps below the curve (resolutions -1, 0, 1); H-nest faces and their segments share corners exactly; point-to-ancestor distance <= 2.5 widths.')
 RULE = 'cells at resolutions 0..28 (low levels exhaustively, structured positions, polar/frame cells) x random descent paths of 6 (quick) / 12 (thorough) levels incl. first/last children; points x ancestor levels'
-ASSUMPTIONS = ['H-step (one-level drift bound)', 'H-nest', 'bit-exact model agreement beyond the samples']
-LEVEL_TEXT = 'partial: the lift from a one-level drift bound to every depth is a machine-checked theorem; the one-level bound itself is numeric and measured on every run'
+ASSUMPTIONS = ['H-sphere (planar -> spherical distance distortion at cell scale; levels below the curve)', 'H-nest', 'bit-exact model agreement beyond the samples']
+LEVEL_TEXT = 'partial: planar coherence (one-level bound 0.46 and its lift to every depth, all levels/orientations) is a machine-checked theorem about the model\'s own anchor and placement functions; the spherical one-level bound is numeric and measured on every run'
 LEVEL_NOTE = 'trusted: Lean kernel + standard axioms; bit-exact correspondence of the Float model; the independent distance oracle'
-TECHNIQUE = 'Lean 4 proof (geometric series over the descent path) + measured one-step table + assumption sweep'
+TECHNIQUE = 'Lean 4 proof (transducer prefix structure + kernel-decided 192-entry rational step table + geometric series in C) + measured spherical step + assumption sweep'
 DESIGN_REF = 'DESIGN.md §3 C07'
 
 def gen_ops(tier, rng):
     return cell_ops(tier, rng, 150 if tier == 'quick' else 3000)
+
+def planar_step_max(a5, top):
+    """max planar parent->child centroid displacement in parent widths, exhaustively for Hilbert levels 1..top, six orientations (the quantity bounded by C07.one_step)"""
+    import math
+    from a5.core import hilbert as H
+    from a5.core.tiling import get_pentagon_vertices
+    from a5.core.pentagon import PENTAGON
+    A = abs(PENTAGON.get_area())
+    def cen(res, an):
+        vs = get_pentagon_vertices(res, 0, an).get_vertices()
+        return (sum(v[0] for v in vs) / 5, sum(v[1] for v in vs) / 5)
+    mx = 0.0
+    for o in ('uv', 'vu', 'uw', 'wu', 'vw', 'wv'):
+        for n in range(1, top + 1):
+            W = math.sqrt(A) / 2 ** n
+            pc = [cen(n, H.s_to_anchor(s, n, o)) for s in range(4 ** n)]
+            for s in range(4 ** (n + 1)):
+                c = cen(n + 1, H.s_to_anchor(s, n + 1, o))
+                mx = max(mx, math.hypot(c[0] - pc[s >> 2][0], c[1] - pc[s >> 2][1]) / W)
+    return mx
 
 def oracle(tier, rng, seeds):
     drv = common.py_driver()
@@ -34,6 +57,10 @@ def oracle(tier, rng, seeds):
     for p in geo_gens.points(drv, tier, rng, 100 if tier == 'quick' else 5000)[: (400 if tier == 'quick' else 99999)]:
         r = rng.randint(3, 29)
         K.check_ancestor_of_point(a5, p, r, rng.randint(0, r - 1), fails); n += 1
+    pm = planar_step_max(a5, 3 if tier == 'quick' else 6)
+    st['planar_max_step'] = pm
+    if pm > 0.46 + 1e-9:
+        fails.append(Failure(f'planar one-level drift {pm:.4f} parent widths exceeds the bound 0.46 proved for the model (Props/C07Planar.one_step): the anchor/placement functions no longer behave like the model', {'kind': 'planar-step'}))
     if st.get('max_step', 0) > 0.72:
         fails.append(Failure(f'one-level drift {st["max_step"]:.3f} parent widths exceeds the bound 0.72 used by the telescoping theorem', {'kind': 'step'}))
     return fails, {'evaluations': n, 'distinct_nontrivial': n, 'failing': len(fails), **st, 'samples': [{'cell': '0x1a80000000000000', 'depth': depth}]}
